@@ -125,6 +125,17 @@ CHECKS["C16"] = dict(
          "the model, not by the replay.",
     design="3/C16")
 
+CHECKS["C10"] = dict(
+    technique="TLA+ reference preprocessing machine without any notion of membership + Reports.tla additivity invariant "
+              "checked by TLC; TLC-simulated scenarios replayed with exclude lists through finder.find and the three CLIs",
+    text="TLC checks on simulated scenarios that removing any subset of code-base files removes exactly their lines from "
+         "the platform-set table (the reference machine cannot consult membership, so nothing else can change); for each "
+         "generated scenario the real pipeline is run with exclude lists matching every single file, every directory, all "
+         "headers (with and without a negated re-inclusion) and random subsets, and the per-line attribution of every "
+         "remaining file, get_setmap and the enumerated code base are compared with the no-exclusion expectation; -x and "
+         "[codebase] exclude are compared through codebasin, cbi-tree and cbi-cov. Sampled, not exhaustive.",
+    design="3/C10")
+
 PENDING_REASON = "check not built yet (build in progress; see DESIGN.md section 7)"
 
 
